@@ -1,7 +1,9 @@
 import Pds.Proofs.KernelTie.HllErr
+import Pds.Proofs.KernelTie.HllCount
+import Pds.Generated.Kernels.HllCount
 import Pds.Props.C03
 /-!
-# C03 — tie by translation: `HyperLogLog::relative_error` and `HyperLogLog::am`
+# C03 — tie by translation: `HyperLogLog::relative_error`, `am`, `linear_counting` and the decision skeleton of `count`
 -/
 namespace Pds.Tie.C03
 open Pds Pds.KernelTie Pds.Generated.Kernels
@@ -18,5 +20,23 @@ theorem relative_error_translated_bounds (m : Nat) (hm : 0 < m) :
 theorem am_translated (m : Nat) :
     (hll_am m : ℝ) = if 128 ≤ m then (7213 / 10000 : ℝ) / (1 + (1079 / 1000) / (m : ℝ))
       else if 64 ≤ m then 709 / 1000 else if 32 ≤ m then 697 / 1000 else 673 / 1000 := hll_am_eq m
+
+/-- `linear_counting` as translated, over ℝ: the `m · ln(m / v)` the small-range theorems of C03 are about -/
+theorem linear_counting_translated (m v : Nat) :
+    (hll_linear_counting m v : ℝ) = (m : ℝ) * Real.log ((m : ℝ) / (v : ℝ)) := by
+  simp [hll_linear_counting, KOps.ofNat, KOps.log]
+
+/-- the decision skeleton of `count` as translated computes the model's `countWith` (at `Float`), given the table
+sum, the bias estimate and the threshold lookup, which stay hand-modelled (`count_total` shows the two lookups
+succeed on every well-formed sketch) -/
+theorem count_translated (cmp : Float → Float → Option HllCount.Cmp) (s : Hll.St) (ps : List Float) (thr : Nat)
+    (hps : s.regs.toList.mapM (fun x => HllCount.pow2F[x]?) = some ps)
+    (hthr : Generated.thresholds[s.b - Generated.thresholdOffset]? = some thr) :
+    HllCount.countWith cmp s =
+      (let m := Float.ofNat s.regs.size
+       let e := HllCount.am s.regs.size * m * m * (1 / ps.foldl (· + ·) 0)
+       (if e ≤ 5 * m then HllCount.estimateBias cmp s.b e else some 0).map fun bv =>
+         hll_count (α := Float) s.regs.size (HllCount.am s.regs.size) (ps.foldl (· + ·) 0) bv (zeros s) thr) :=
+  hll_count_float cmp s ps thr hps hthr
 
 end Pds.Tie.C03
